@@ -24,7 +24,7 @@ RULE = (
     "the REAL code on the reduced ensemble (differential, for functions and - when the survivors lost no perturbation - for gradients, merged included), and the least-squares fit over the surviving perturbations for per-realization gradients. "
     "Within a shard all cases with the same configuration REUSE one EnsembleEvaluator (each case starts from the state the "
     "previous failure patterns left behind; a violation that needs that history is replayed by re-running the shard). "
-    "Trivial: nothing judged (abort by filter/estimator, which C14 judges)."
+    "Plus: functions at a point, then a gradient-only request at a point that differs in a FIXED variable only, with a realization failing at one of the two points only: flags and gradient must equal those of a fresh evaluator. Trivial: nothing judged (abort by filter/estimator, which C14 judges)."
 )
 ASSUMPTIONS = [
     "affine objective 0 and quadratic objective 1 / constraint with dyadic coefficients; deterministic design sampler; "
@@ -310,6 +310,58 @@ def _weights_for(config: Any, refc: dict[str, Any], fmap: tuple[int, ...], f: in
     return ref.norm_weights(base, failed)
 
 
+def judge_fixed_moved(case: dict[str, Any]) -> Judgement:
+    """Functions at a point, then a gradient-only request at a point that differs in a FIXED variable only (what a nested
+    optimization produces), with different failures at the two points: the gradient evaluation is judged on its own point."""
+    from ropt.ensemble_evaluator import EnsembleEvaluator
+    from ropt.exceptions import OptimizationAborted
+    from ropt.results import GradientResults
+
+    j = Judgement()
+    R, P, fr, rms = case["R"], 2, case["fr"], case["rms"]
+    slopes = np.array([[[1.0, -2.0, 0.5]], [[0.5, 1.5, -1.0]], [[-0.75, 0.25, 2.0]]])[:R]
+    offsets = np.array([[0.5], [-1.0], [1.25]])[:R]
+    fn = AffineEnsemble(slopes, offsets, quad=[0.25])
+    config = validate({
+        "variables": {"initial_values": [0.3, -0.2, 1.5], "mask": [True, True, False]},
+        "realizations": {"weights": [1.0, 2.0, 3.0][:R], "realization_min_success": rms},
+        "gradient": {"number_of_perturbations": P, "perturbation_magnitudes": 0.1, "merge_realizations": case["merge"]},
+        "samplers": [{"method": "verif/design", "options": {"design": [[1.0, 0.0], [0.0, 1.0]]}, "shared": True}],
+    })
+    manager, _ = make_manager()
+    x_first, x = np.array([0.3, -0.2, 1.5]), np.array([0.3, -0.2, 0.5])
+    which = case["which"]  # the realization fails at the first point only, or at the second point only
+
+    def fail(call: int, row: int, r: int, p: int) -> Any:
+        at_first = call == 0
+        return [0] if r == fr and ((which == "first") == at_first) else None
+
+    used = EnsembleEvaluator(config, None, TableEvaluator(fn, 1, 0, fail=fail), manager)
+    fresh = EnsembleEvaluator(config, None, TableEvaluator(fn, 1, 0, fail=(lambda call, row, r, p: [0] if (r == fr and which == "second") else None)), manager)
+    out = []
+    for ens, prime in ((used, True), (fresh, False)):
+        try:
+            if prime:
+                ens.calculate(x_first, compute_functions=True, compute_gradients=False)
+            res = ens.calculate(x, compute_functions=not prime, compute_gradients=True)
+            g = next(item for item in res if isinstance(item, GradientResults))
+            out.append((None if g.gradients is None else np.asarray(g.gradients.objectives), np.asarray(g.realizations.failed_realizations)))
+        except OptimizationAborted as exc:
+            out.append(("abort", exc.exit_code.name))
+    j.transitions = 3
+    j.outcome = f"fixed-moved:{which}:merge={case['merge']}"
+    (g_used, f_used), (g_fresh, f_fresh) = out
+    if isinstance(g_used, str) or isinstance(g_fresh, str):
+        if (g_used, f_used) != (g_fresh, f_fresh) if isinstance(g_used, str) and isinstance(g_fresh, str) else True:
+            j.fail("fixed-moved:abort-differs-from-fresh-evaluator", used=str(out[0]), fresh=str(out[1]))
+        return j
+    if not np.array_equal(f_used, f_fresh):
+        j.fail("fixed-moved:failed-flags-kept-from-the-other-point", used=f_used, fresh=f_fresh, which=which)
+    if (g_used is None) != (g_fresh is None) or (g_used is not None and not np.allclose(g_used, g_fresh, rtol=1e-9, atol=1e-12, equal_nan=True)):
+        j.fail("fixed-moved:gradient-differs-from-fresh-evaluator", used=g_used, fresh=g_fresh, which=which)
+    return j
+
+
 def shards(tier: str, seed: int) -> list[dict[str, Any]]:
     shapes = [(1, 1), (1, 2), (2, 1), (2, 2), (3, 1), (3, 2)]
     if tier == "thorough":
@@ -321,11 +373,21 @@ def shards(tier: str, seed: int) -> list[dict[str, Any]]:
         chunk = max(1, len(subsets) // (1 if cells <= 4 else 8 if cells <= 6 else 32 if cells <= 9 else 128))
         for group in core.chunked(subsets, chunk):
             out.append({"R": R, "P": P, "subsets": [group[0], group[-1] + 1], "tier": tier, "seed": seed})
+    out.append({"kind": "fixed-moved", "tier": tier, "seed": seed})
     return out
 
 
 def run_shard(shard: dict[str, Any]) -> core.ShardResult:
     rec = Recorder(shard)
+    if shard.get("kind") == "fixed-moved":
+        for R in (2, 3):
+            for fr in range(R):
+                for rms in range(0, R + 1):
+                    for which in ("first", "second"):
+                        for merge in (False, True):
+                            case = {"kind": "fixed-moved", "R": R, "fr": fr, "rms": rms, "which": which, "merge": merge}
+                            rec.add(("fixed-moved", R, fr, rms, which, merge), case, judge_fixed_moved(case))
+        return rec.finish()
     R, P, tier = shard["R"], shard["P"], shard["tier"]
     shared: dict[Any, Any] = {}
     for subset in range(*shard["subsets"]):
@@ -355,6 +417,8 @@ def run_shard(shard: dict[str, Any]) -> core.ShardResult:
 
 
 def run_case(case: dict[str, Any]) -> Judgement:
+    if case.get("kind") == "fixed-moved":
+        return judge_fixed_moved(case)
     return judge(case)
 
 
